@@ -6,7 +6,7 @@ cd "$(dirname "$0")/.."
 ids=${@:-$(ls seeded | grep '^C')}
 bad=0
 for id in $ids; do
-  out=$(LINES_MAX=3 tools/trymut.sh seeded/$id/patch.diff $id 2>&1)
+  out=$(LINES_MAX=3 tools/trymut.sh seeded/$id/patch.diff ${id:0:3} 2>&1)
   rc=$(echo "$out" | sed -n 's/^== .* rc=\([0-9]*\)$/\1/p' | head -1)
   first=$(echo "$out" | grep -m1 '^  \[' | cut -c1-160)
   if [ "$rc" = 1 ]; then echo "$id caught: $first"; else echo "$id NOT CAUGHT (rc=$rc)"; echo "$out" | tail -3; bad=1; fi
